@@ -873,6 +873,7 @@ class GraphProcessor:
             is_fixed[i_dec] = i_dv in self._fixed_values
 
         sel_choice_is_active = graph_instance = i_comb = None
+        is_cached_instance = True  # Whether graph_instance is an object that is also kept in one of the caches
         try:
             if not create:
                 graph_instance = None
@@ -961,9 +962,11 @@ class GraphProcessor:
                 cache_key = (choice_node, opt_dec_existence_key, tuple(choice_des_vector), tuple(prev_values))
                 if cache_key in graph_cache:
                     graph_instance = graph_cache[cache_key].copy()
+                    is_cached_instance = False
                 else:
                     graph_cache[cache_key] = graph_instance = \
                         graph_instance.get_for_apply_connection_choice(choice_node, node_edges, validate=False)
+                    is_cached_instance = True
 
             used_values[i_dv_start:i_dv_end] = [
                 int(val) if choice_is_active[i_dv] else None for i_dv, val in enumerate(choice_des_vector)]
@@ -980,6 +983,7 @@ class GraphProcessor:
         if np.any(dv_node_existence):
             if graph_instance is not None:
                 graph_instance = graph_instance.copy()
+                is_cached_instance = False
             for i_dv, des_var_node in enumerate(self.design_variable_nodes):
                 if not dv_node_existence[i_dv]:
                     continue
@@ -997,6 +1001,10 @@ class GraphProcessor:
                     used_values[dv_idx] = graph_instance.des_var_value(des_var_node)
                 else:
                     used_values[dv_idx], _ = des_var_node.correct_value(des_var_value)
+
+        # Never hand out an object that is also kept in a cache: the caller may modify it (e.g. store metric values)
+        if graph_instance is not None and is_cached_instance:
+            graph_instance = graph_instance.copy()
 
         # Set all unused design variables to their inactive values
         is_active = [used_value is not None for used_value in used_values]
